@@ -502,6 +502,10 @@ class Folder:
                     return fn_(*args)
                 except Exception:
                     return Unknown(f.name + " failed")
+        if isinstance(f, ExtVal) and not f.called and f.name in ("itertools.chain", "itertools.chain.from_iterable") and not kwargs:
+            seqs = args if f.name == "itertools.chain" else (list(args[0]) if args and isinstance(args[0], (list, tuple)) else None)
+            if seqs is not None and all(isinstance(a, (list, tuple, dict)) for a in seqs):
+                return [x for a in seqs for x in a]  # the concatenation, as a list (a folded loop only iterates it)
         if isinstance(f, ExtVal):
             if f.name == "collections.OrderedDict" and not f.called and not any(is_unknown(a) or isinstance(a, ExtVal) for a in list(args) + list(kwargs.values())):
                 try:  # an insertion-ordered mapping: the folder's dict is one
